@@ -21,6 +21,8 @@ Fixpoint csize (c : content) : nat :=
   end.
 
 (* ------------------------------------------------------------------ generic list facts *)
+Lemma firstn_In' {A} (x : A) n : forall l, In x (firstn n l) -> In x l.
+Proof. induction n as [|n IH]; intros [|a l]; cbn; try tauto. intros [->|H]; [now left|right; now apply IH]. Qed.
 Lemma mapM_slice {A B} (f : A -> res B) l ys a b sl :
   mapM f l = Ok ys -> slice l a b = Ok sl -> mapM f sl = slice ys a b.
 Proof.
@@ -52,11 +54,15 @@ Proof.
   intros Hs Hab. pose proof (slice_inv _ _ _ _ Hs) as Hb. rewrite slice_ok in Hs by lia. inversion Hs; subst.
   assert (Hne : o <> []) by (intros ->; cbn in Hb; lia).
   rewrite slice_ok; try lia.
-  - f_equal. unfold take, drop. rewrite pairs_skipn.
-    replace (Z.to_nat (b + 1 - a)) with (S (Z.to_nat (b - a))) by lia. rewrite pairs_firstn. rewrite <- pairs_skipn. reflexivity.
+  - f_equal. unfold take, drop.
+    replace (Z.to_nat (b + 1 - a)) with (S (Z.to_nat (b - a))) by lia. rewrite pairs_firstn, pairs_skipn. reflexivity.
   - rewrite zlen_pairs by exact Hne. lia.
 Qed.
 
+Lemma firstn_zip {A B} n : forall (s : list A) (e : list B), firstn n (zip s e) = zip (firstn n s) (firstn n e).
+Proof.
+  induction n as [|n IH]; [reflexivity|]. intros [|a s] [|b e]; cbn; try reflexivity; now rewrite IH.
+Qed.
 Lemma take_as_slice {A} (l : list A) k : 0 <= k <= zlen l -> slice l 0 k = Ok (take k l).
 Proof. intros H. rewrite slice_ok by lia. unfold drop. cbn [Z.to_nat skipn]. now rewrite Z.sub_0_r. Qed.
 
@@ -75,23 +81,23 @@ Proof.
   destruct c as [dt shape data| |w o c'|w s e c'|c' size zl|w ix c'|w ix c'|m vw c'|m vw lsb n c'|c'|w t ix cs|cs ks n|arr rn c'];
     try discriminate.
   - (* Numpy, 1-d *)
-    destruct shape as [|n [|d ds]]; try discriminate. cbn [jag] in Hj. cbn [clen] in Hk, Hguard.
+    destruct shape as [|n [|d ds]]; try discriminate. cbn [jag] in Hj. cbn [clen] in Hk.
     cbn [grange]. rewrite Hguard. cbn [prodZ fold_right].
     rewrite to_list_Numpy in Hl. cbn [existsb prodZ fold_right] in Hl.
     destruct (n <? 0) eqn:En; [discriminate|]. cbn [orb] in Hl.
     replace (n * 1) with n in Hl by lia. destruct (zlen data <? n) eqn:Ed; [discriminate|]. cbn [nest] in Hl. inversion Hl; subst vs.
     eexists. split; [reflexivity|]. repeat split.
     + cbn [jag]. apply forallb_forall. intros x Hx. rewrite forallb_forall in Hj. apply Hj.
-      unfold take, drop in Hx. cbn [Z.to_nat skipn] in Hx. now apply firstn_In in Hx.
+      unfold take, drop in Hx. cbn [Z.to_nat skipn] in Hx. now apply firstn_In' in Hx.
     + rewrite to_list_Numpy. cbn [existsb prodZ fold_right].
       replace ((k - 0) * 1) with k by lia. replace (k - 0) with k by lia.
-      destruct (k <? 0) eqn:Ek; [lia|]. cbn [orb]. unfold drop. cbn [Z.to_nat skipn].
-      rewrite zlen_take by lia. destruct (k <? k * 1) eqn:E2; [lia|]. cbn [nest]. f_equal.
-      replace (k * 1) with k by lia. rewrite <- map_take. f_equal.
+      destruct (k <? 0) eqn:Ek; [lia|]. cbn [orb]. unfold drop. replace (0 * 1) with 0 by lia. cbn [Z.to_nat skipn].
+      rewrite zlen_take by lia. destruct (k <? k) eqn:E2; [lia|]. cbn [nest]. f_equal.
+      rewrite <- map_take. f_equal.
       unfold take. rewrite !firstn_firstn. f_equal. lia.
     + cbn [clen]. lia.
   - (* ListOffset *)
-    cbn [jag] in Hj. cbn [clen] in Hk, Hguard. cbn [grange]. rewrite Hguard.
+    cbn [jag] in Hj. cbn [clen] in Hk. cbn [grange]. rewrite Hguard.
     rewrite to_list_ListOffset in Hl. apply bind_Ok in Hl as (vs0 & Hl0 & Hl). apply rmap_Ok in Hl as (ls & Hc & ->).
     unfold cut in Hc. destruct o as [|o0 o]; [discriminate|]. set (oo := o0 :: o) in *.
     assert (Hzo : zlen oo = clen (ListOffset w oo c') + 1) by (cbn [clen]; lia). cbn [clen] in Hzo.
@@ -107,7 +113,7 @@ Proof.
       * rewrite (mapM_zlen _ _ _ Hc), zlen_pairs by discriminate. lia.
     + cbn [clen]. rewrite (slice_zlen _ _ _ _ Es). lia.
   - (* ListA *)
-    cbn [jag] in Hj. cbn [clen] in Hk, Hguard. cbn [grange]. rewrite Hguard.
+    cbn [jag] in Hj. cbn [clen] in Hk. cbn [grange]. rewrite Hguard.
     rewrite to_list_ListA in Hl. apply bind_Ok in Hl as (vs0 & Hl0 & Hl). apply rmap_Ok in Hl as (ls & Hc & ->).
     unfold cut2 in Hc. destruct (zlen e <? zlen s) eqn:E0; [discriminate|].
     rewrite !take_as_slice by lia. cbn [bind]. eexists. split; [reflexivity|]. repeat split.
@@ -115,16 +121,13 @@ Proof.
     + rewrite to_list_ListA, Hl0. cbn [bind]. unfold cut2. rewrite !zlen_take by lia.
       destruct (k <? k) eqn:E1; [lia|].
       assert (Hz : slice (zip s e) 0 k = Ok (zip (take k s) (take k e))).
-      { rewrite take_as_slice by (rewrite zlen_zip; lia). f_equal. unfold take.
-        clear. revert s e. induction (Z.to_nat k) as [|n IH]; intros [|a s] [|b e]; cbn; try reflexivity.
-        - now destruct n.
-        - now rewrite IH. }
+      { rewrite take_as_slice by (rewrite zlen_zip; lia). f_equal. unfold take. apply firstn_zip. }
       rewrite (mapM_slice _ _ _ 0 k _ Hc Hz). rewrite take_as_slice.
       * cbn [rmap]. now rewrite map_take.
       * rewrite (mapM_zlen _ _ _ Hc), zlen_zip. lia.
     + cbn [clen]. rewrite zlen_take by lia. reflexivity.
   - (* IndexedOption *)
-    cbn [jag] in Hj. cbn [clen] in Hk, Hguard. cbn [grange]. rewrite Hguard.
+    cbn [jag] in Hj. cbn [clen] in Hk. cbn [grange]. rewrite Hguard.
     rewrite to_list_IndexedOption in Hl. apply bind_Ok in Hl as (vs0 & Hl0 & Hl).
     rewrite take_as_slice by lia. cbn [bind]. eexists. split; [reflexivity|]. repeat split.
     + exact Hj.
@@ -132,4 +135,149 @@ Proof.
       rewrite (mapM_slice _ _ _ 0 k _ Hl (take_as_slice ix k ltac:(lia))). apply take_as_slice.
       rewrite (mapM_zlen _ _ _ Hl). lia.
     + cbn [clen]. rewrite zlen_take by lia. reflexivity.
+Qed.
+
+Lemma skipn_In' {A} (x : A) n : forall l, In x (skipn n l) -> In x l.
+Proof. induction n as [|n IH]; intros [|a l]; cbn; try tauto. intros H. right. now apply IH. Qed.
+Lemma slice_In {A} (l r : list A) a b x : slice l a b = Ok r -> In x r -> In x l.
+Proof.
+  intros Hs Hx. pose proof (slice_inv _ _ _ _ Hs). rewrite slice_ok in Hs by lia. inversion Hs; subst.
+  unfold take, drop in Hx. apply firstn_In' in Hx. now apply skipn_In' in Hx.
+Qed.
+
+Lemma carry_jag c : forall vs ix,
+  jag c = true -> to_list c = Ok vs -> Forall (fun i => 0 <= i < clen c) ix ->
+  exists c', carry c ix = Ok c' /\ jag c' = true /\ to_list c' = mapM (get vs) ix /\
+             type_of c' = type_of c /\ csize c' = csize c /\ clen c' = zlen ix /\
+             is_option_node c' = is_option_node c /\ is_list_node c' = is_list_node c /\ is_numpy_node c' = is_numpy_node c.
+Proof.
+  intros vs ix Hj Hl Hix.
+  destruct c as [dt shape data| |w o c'|w s e c'|c' size zl|w ix0 c'|w ix0 c'|m vw c'|m vw lsb n c'|c'|w t ix0 cs|cs ks n|arr rn c'];
+    try discriminate.
+  - (* Numpy *)
+    destruct shape as [|n [|d ds]]; try discriminate. cbn [jag] in Hj.
+    destruct (carry_numpy dt [n] data vs ix Hl Hix) as (c' & Hc & Hl' & Hn).
+    exists c'. split; [exact Hc|]. cbn [carry] in Hc. apply bind_Ok in Hc as (rows & Hrows & Hc). inversion Hc; subst c'.
+    repeat split; try assumption.
+    cbn [jag]. apply forallb_forall. intros x Hx. apply in_concat in Hx as (r & Hr & Hx).
+    destruct (mapM_In_inv _ _ _ _ Hrows Hr) as (i & _ & Hi).
+    destruct ((0 <=? i) && (i <? n)); [|discriminate]. rewrite forallb_forall in Hj. apply Hj. eapply slice_In; eassumption.
+  - (* ListOffset *)
+    cbn [jag] in Hj.
+    rewrite to_list_ListOffset in Hl. apply bind_Ok in Hl as (vs0 & Hl0 & Hl). apply rmap_Ok in Hl as (ls & Hc & ->).
+    unfold cut in Hc. destruct o as [|a o]; [discriminate|]. set (oo := a :: o) in *.
+    assert (Hne : oo <> []) by discriminate. cbn [clen] in Hix.
+    destruct (gather_ok (removelast oo) ix) as [s Hs]; [rewrite zlen_removelast by exact Hne; exact Hix|].
+    destruct (gather_ok (tl oo) ix) as [e He]; [rewrite zlen_tl by exact Hne; exact Hix|].
+    cbn [carry]. unfold gather. rewrite Hs, He. cbn [bind]. eexists. split; [reflexivity|].
+    pose proof (mapM_zlen _ _ _ Hs) as Hls. pose proof (mapM_zlen _ _ _ He) as Hle.
+    repeat split; try exact Hj; try (cbn [clen]; exact Hls).
+    rewrite to_list_ListA, Hl0. cbn [bind]. unfold cut2. destruct (zlen e <? zlen s) eqn:E; [lia|].
+    rewrite gather_map. f_equal. rewrite pairs_zip in Hc.
+    apply (mapM_gather_ok _ _ _ ix (zip s e) Hc). rewrite gather_zip, Hs, He. reflexivity.
+  - (* ListA *)
+    cbn [jag] in Hj.
+    rewrite to_list_ListA in Hl. apply bind_Ok in Hl as (vs0 & Hl0 & Hl). apply rmap_Ok in Hl as (ls & Hc & ->).
+    unfold cut2 in Hc. destruct (zlen e <? zlen s) eqn:E0; [discriminate|]. cbn [clen] in Hix.
+    destruct (gather_ok s ix) as [s' Hs]; [exact Hix|].
+    destruct (gather_ok e ix) as [e' He]; [eapply Forall_impl; [|exact Hix]; cbv beta; intros; lia|].
+    cbn [carry]. unfold gather. rewrite Hs, He. cbn [bind]. eexists. split; [reflexivity|].
+    pose proof (mapM_zlen _ _ _ Hs) as Hls. pose proof (mapM_zlen _ _ _ He) as Hle.
+    repeat split; try exact Hj; try (cbn [clen]; exact Hls).
+    rewrite to_list_ListA, Hl0. cbn [bind]. unfold cut2. destruct (zlen e' <? zlen s') eqn:E; [lia|].
+    rewrite gather_map. f_equal.
+    apply (mapM_gather_ok _ _ _ ix (zip s' e') Hc). rewrite gather_zip, Hs, He. reflexivity.
+  - (* IndexedOption *)
+    cbn [jag] in Hj.
+    rewrite to_list_IndexedOption in Hl. apply bind_Ok in Hl as (vs0 & Hl0 & Hl). cbn [clen] in Hix.
+    destruct (gather_ok ix0 ix Hix) as [j Hjx]. cbn [carry]. unfold gather. rewrite Hjx. cbn [bind].
+    eexists. split; [reflexivity|]. repeat split; try exact Hj; try (cbn [clen]; apply (mapM_zlen _ _ _ Hjx)).
+    rewrite to_list_IndexedOption, Hl0. cbn [bind]. apply (mapM_gather_ok _ _ _ ix j Hl Hjx).
+Qed.
+
+Lemma list_eqb_eq l m : list_eqb Z.eqb l m = true -> l = m.
+Proof.
+  revert m. induction l as [|x l IH]; intros [|y m]; cbn; try discriminate; [reflexivity|].
+  intros H. apply andb_prop in H as [H1 H2]. apply Z.eqb_eq in H1. subst. f_equal. now apply IH.
+Qed.
+Lemma range0_iota k : range 0 k = iota k.
+Proof. unfold range, iota. now rewrite Z.sub_0_r. Qed.
+Lemma gather_prefix {A} (l : list A) k : 0 <= k <= zlen l -> mapM (get l) (iota k) = Ok (take k l).
+Proof. intros H. rewrite <- range0_iota, gather_range by lia. now apply take_as_slice. Qed.
+
+(* Content::carry with its identity short-cut *)
+Lemma ccarry_jag c : forall vs ix,
+  jag c = true -> to_list c = Ok vs -> Forall (fun i => 0 <= i < clen c) ix ->
+  exists c', ccarry c ix = Ok c' /\ jag c' = true /\ to_list c' = mapM (get vs) ix /\
+             type_of c' = type_of c /\ csize c' = csize c /\ clen c' = zlen ix /\
+             is_option_node c' = is_option_node c /\ is_list_node c' = is_list_node c /\ is_numpy_node c' = is_numpy_node c.
+Proof.
+  intros vs ix Hj Hl Hix. unfold ccarry.
+  destruct (list_eqb Z.eqb ix (iota (zlen ix))) eqn:E; [|now apply carry_jag].
+  apply list_eqb_eq in E. pose proof (to_list_len _ _ Hl) as Hlen.
+  assert (Hk : 0 <= zlen ix <= clen c).
+  { split; [apply zlen_nonneg|]. destruct (Z.eq_dec (zlen ix) 0) as [->|Hne]; [rewrite <- Hlen; apply zlen_nonneg|].
+    pose proof (zlen_nonneg ix).
+    assert (Hin : In (zlen ix - 1) ix).
+    { remember (zlen ix) as k eqn:Hkk. rewrite E. apply iota_In'. lia. }
+    rewrite Forall_forall in Hix. specialize (Hix _ Hin). lia. }
+  destruct (zlen ix =? clen c) eqn:Ec.
+  - exists c. split; [reflexivity|]. repeat split; try assumption; try lia.
+    rewrite E, gather_prefix by lia. rewrite take_all by lia. exact Hl.
+  - destruct (grange0_jag c vs (zlen ix) Hj Hl Hk) as (c' & Hc & Hj' & Hl' & Ht & Hs & Hn & H1 & H2 & H3).
+    exists c'. split; [exact Hc|]. repeat split; try assumption.
+    rewrite Hl'. rewrite E at 2. rewrite gather_prefix by lia. reflexivity.
+Qed.
+
+(* ------------------------------------------------------------------ which branch of apply a pair of fragment inputs takes *)
+Lemma jag_nodes c : jag c = true ->
+  is_empty_node c = false /\ is_numpy_nd c = false /\ is_indexed_node c = false /\ is_union_node c = false /\
+  is_record_node c = false /\ is_regular_node c = false /\
+  (is_list_node c = true -> pl_isreg c = false) /\
+  (is_numpy_node c = true \/ is_option_node c = true \/ is_list_node c = true).
+Proof.
+  destruct c as [dt shape data| |w o c'|w s e c'|c' size zl|w ix0 c'|w ix0 c'|m vw c'|m vw lsb n c'|c'|w t ix0 cs|cs ks n|arr rn c'];
+    try discriminate; cbn [jag]; intros H; repeat split; try reflexivity; try discriminate; auto.
+  - destruct shape as [|n [|d ds]]; try discriminate; reflexivity.
+Qed.
+
+Lemma jag_rcond c1 c2 : jag c1 = true -> jag c2 = true ->
+  (let cs := [c1; c2] in
+   let md := fold_right Z.max (-1) (map pl_depth cs) in
+   existsb is_list_node cs && (0 <? md) && forallb pl_isreg cs && existsb (fun c => pl_depth c <? md) cs) = false.
+Proof.
+  intros H1 H2. cbv zeta. cbn [existsb forallb].
+  destruct (jag_nodes c1 H1) as (_ & _ & _ & _ & _ & _ & R1 & _).
+  destruct (jag_nodes c2 H2) as (_ & _ & _ & _ & _ & _ & R2 & _).
+  destruct (is_list_node c1) eqn:L1; [rewrite (R1 eq_refl); cbn; now rewrite !andb_false_r|].
+  destruct (is_list_node c2) eqn:L2; [rewrite (R2 eq_refl); cbn; now rewrite !andb_false_r|].
+  reflexivity.
+Qed.
+
+Lemma reg_chain_jag c : jag c = true -> reg_chain c = None.
+Proof. destruct c; try discriminate; reflexivity. Qed.
+Lemma to_nparr_jag_other c : jag c = true -> is_numpy_node c = false -> to_nparr (MC c) = Ok None.
+Proof.
+  intros Hj Hn. unfold to_nparr, deregulate. rewrite (reg_chain_jag c Hj). cbn [bind].
+  destruct c; try discriminate; reflexivity.
+Qed.
+
+Definition undz (d : datum) : Z := match d with DZ z => z | _ => 0 end.
+Lemma datum_z_all l : forallb is_dz l = true -> mapM datum_z l = Ok (map undz l).
+Proof.
+  induction l as [|d l IH]; [reflexivity|]. cbn [forallb]. intros H. apply andb_prop in H as [Hd Hl].
+  cbn [mapM map]. destruct d; try discriminate. cbn. now rewrite (IH Hl).
+Qed.
+Lemma forallb_firstn {A} (p : A -> bool) n l : forallb p l = true -> forallb p (firstn n l) = true.
+Proof. intros H. apply forallb_forall. intros x Hx. rewrite forallb_forall in H. apply H. eapply firstn_In'; eassumption. Qed.
+
+(* integer view of a 1-d leaf *)
+Definition leaf_z (dt : dtype) (d : datum) : Z := if dt_isbool dt then b2z (negb (undz d =? 0)) else undz d.
+Lemma to_nparr_jag_numpy dt n data :
+  forallb is_dz data = true -> n <= zlen data ->
+  to_nparr (MC (Numpy dt [n] data)) = Ok (Some (dt_isbool dt, ([n], map (leaf_z dt) (take n data)))).
+Proof.
+  intros Hd Hn. unfold to_nparr, deregulate. cbn [reg_chain bind prodZ fold_right].
+  replace (n * 1) with n by lia. destruct (zlen data <? n) eqn:E; [lia|].
+  rewrite datum_z_all by (unfold take; now apply forallb_firstn). cbn [bind]. rewrite map_map. reflexivity.
 Qed.
